@@ -128,6 +128,8 @@ def volume_case(res, W, rng, total, msg):
                     d = v
                 elif name == "recv_data":
                     op, d = w.recv_data(cf)
+                    if op in (R.PING, R.PONG):
+                        continue  # control frames are reported to the caller in this mode
                 else:
                     op, fr = w.recv_data_frame(cf)
                     d = fr.data
